@@ -27,7 +27,9 @@ EXPLANATION = (
     'R-C13.1 also requires the models-import decision to be taken inside the loop over the rendered mutations when it tests a per-mutation value; '
     'R-C13.6 combined expressions are rendered through a table covering every connector django\'s Combinable defines, never value.connector itself; R-C13.7 composite serialisers render their parts through serialize_to_python(), never %r / repr().'
     ' '
-    "R-C13.6 second clause: every entry of the connector tables spells its connector the way django's Combinable produces it (operator of the non-reflected dunder or the method name, read from the installed Django source).")
+    "R-C13.6 second clause: every entry of the connector tables spells its connector the way django's Combinable produces it (operator of the non-reflected dunder or the method name, read from the installed Django source)."
+    ' '
+    'R-C13.8 the hint text reaches stdout / the evolution file with nothing but whitespace trimming applied.')
 NOT_DECIDED = (
     'Semantic equality of the re-loaded mutations (same signature change, '
     'same SQL) for all values; validity of the rendered Python for every '
@@ -667,7 +669,68 @@ def r5_hint_coverage(ctx):
                     'name and hint params', key='generate-hint')
 
 
+TEXT_PRESERVING = {'strip', 'rstrip', 'lstrip', 'encode', 'decode', 'str',
+                   'text_type', 'force_str', 'force_text'}
+
+
+def r8_hint_text_reaches_output_verbatim(ctx):
+    """evolve --hint prints (or --write saves) the evolution text produced by
+    iter_evolution_content().  Between the generator and the sink only
+    whitespace trimming may be applied to it: any other text transformation
+    (wrapping, replacing, truncating) can split a string literal or the
+    unbracketed import line, and the printed hint no longer loads."""
+    ctx.rule('R-C13.8')
+    p = ctx.program
+    f = p.func('management.commands.evolve',
+               'Command._generate_evolution_contents')
+    # names bound from the (task, content) pairs of iter_evolution_content()
+    src_names = set()
+    for n in walk_no_nested(f.node):
+        if isinstance(n, ast.Assign) and isinstance(n.value, ast.Call) and \
+                call_name(n.value) == 'iter_evolution_content':
+            src_names |= {t.id for t in n.targets if isinstance(t, ast.Name)}
+    content = set()
+    for n in walk_no_nested(f.node):
+        if isinstance(n, ast.For):
+            it = n.iter
+            if isinstance(it, ast.Call) and call_name(it) == 'enumerate' and \
+                    it.args:
+                it = it.args[0]
+            if (isinstance(it, ast.Name) and it.id in src_names) or (
+                    isinstance(it, ast.Call) and
+                    call_name(it) == 'iter_evolution_content'):
+                for x in ast.walk(n.target):
+                    if isinstance(x, ast.Name):
+                        content.add(x.id)
+    n_sinks = 0
+    for c in walk_no_nested(f.node):
+        if not (isinstance(c, ast.Call) and call_name(c) == 'write' and
+                c.args):
+            continue
+        uses = [x for x in ast.walk(c.args[0]) if isinstance(x, ast.Name)
+                and x.id in content]
+        if not uses:
+            continue
+        n_sinks += 1
+        bad = [x for x in ast.walk(c.args[0]) if isinstance(x, ast.Call) and
+               call_name(x) not in TEXT_PRESERVING and any(
+                   isinstance(y, ast.Name) and y.id in content
+                   for a in list(x.args) + [k.value for k in x.keywords]
+                   for y in ast.walk(a))]
+        if bad:
+            ctx.finding(f, c, 'the hint text is passed through %s(...) on its '
+                        'way to the output: the printed / written evolution '
+                        'is no longer the text get_evolution_content() '
+                        'produced and may not be loadable Python' %
+                        call_name(bad[0]), key='hint-text-transformed:%s' %
+                        call_name(bad[0]))
+        else:
+            ctx.ok(f, 'hint text reaches the sink verbatim (trimmed)', c)
+    ctx.floor('sinks of the hint text in the evolve command', n_sinks, 2)
+
+
 def run(ctx):
+    r8_hint_text_reaches_output_verbatim(ctx)
     r1_import_closure(ctx)
     r2_q_total(ctx)
     r3_parenthesise(ctx)
